@@ -196,6 +196,12 @@ class Resolver:
         if isinstance(e, ast.Attribute):
             if self.selfname and isinstance(e.value, ast.Name) and e.value.id == self.selfname and e.value.id not in self.defs:
                 return ("field", e.attr)
+            if isinstance(e.value, ast.Name) and e.value.id not in self.defs and e.value.id not in self.fn.params and not (_compenv and e.value.id in _compenv):
+                mp = self._module_alias_path(e.value.id)
+                if mp is not None:
+                    # `constants_module.NAME`: the same as NAME imported by name
+                    lit = self._module_literal(e.attr, mp)
+                    return lit if lit is not None else ("name", e.attr)
             base = T(e.value)
             proj = self._record_projection(base, e.attr)
             if proj is not None:
@@ -724,6 +730,45 @@ class Resolver:
             cache[key] = out
         return cache[key]
 
+    def _module_alias_path(self, name):
+        """Path of the library module that the module-level name `name` denotes (`from pkg import module [as name]`,
+        `import pkg.module as name`), or None."""
+        cache = self.m.__dict__.setdefault("_module_aliases", {})
+        key = (self.fn.path, name)
+        if key not in cache:
+            import os
+            out = None
+            tree = self.m.trees.get(self.fn.path, (None, None))[0]
+            binds = []
+            for st in (tree.body if tree is not None else []):
+                if isinstance(st, ast.ImportFrom):
+                    for al in st.names:
+                        if (al.asname or al.name) == name:
+                            if st.level:
+                                base = os.path.dirname(self.fn.path)
+                                for _ in range(st.level - 1):
+                                    base = os.path.dirname(base)
+                                binds.append(os.path.join(base, *((st.module or "").split(".") if st.module else []), al.name) + ".py")
+                            else:
+                                binds.append(os.sep + os.path.join(*(st.module or "").split("."), al.name) + ".py")
+                elif isinstance(st, ast.Import):
+                    for al in st.names:
+                        if al.asname == name:
+                            binds.append(os.sep + os.path.join(*al.name.split(".")) + ".py")
+                        elif al.asname is None and al.name.split(".")[0] == name:
+                            binds.append(None)
+                elif isinstance(st, (ast.FunctionDef, ast.ClassDef)) and st.name == name:
+                    binds.append(None)
+                elif not isinstance(st, (ast.FunctionDef, ast.ClassDef)) and any(isinstance(x, ast.Name) and isinstance(x.ctx, ast.Store) and x.id == name for x in ast.walk(st)):
+                    binds.append(None)
+            if len(binds) == 1 and binds[0] is not None:
+                b = binds[0]
+                cands = [p_ for p_ in self.m.trees if p_ == b or (b.startswith(os.sep) and p_.endswith(b))]
+                if len(cands) == 1:
+                    out = cands[0]
+            cache[key] = out
+        return cache[key]
+
     def _module_literal(self, name, path=None, _hops=0):
         """A module-level constant bound once to a literal (number, string, tuple/list of such, constant
         table), in this module or imported by name from another module of the repository."""
@@ -755,7 +800,18 @@ class Resolver:
                         out = self._module_literal(al.name, cands[0], _hops + 1)
                 cache[key] = out
                 return out
-        if tree is not None and not path.endswith("posc.py"):
+        if out is None and tree is not None and not path.endswith("posc.py"):
+            fdefs = [st for st in tree.body if isinstance(st, ast.FunctionDef) and st.name == name]
+            if len(fdefs) == 1 and not fdefs[0].decorator_list and not any(isinstance(x, ast.Name) and isinstance(x.ctx, ast.Store) and x.id == name for st in tree.body if not isinstance(st, (ast.FunctionDef, ast.ClassDef)) for x in ast.walk(st)):
+                # def DoAdd(a, b): return a + b   -- a named binary operator
+                from .facts import _def_op
+                from .dispatch import OPFN
+                lo = _def_op(fdefs[0])
+                if lo is not None:
+                    nm = [k for k, v in OPFN.items() if v is lo[0]]
+                    if nm:
+                        out = ("opfn-swapped" if lo[1] else "opfn", nm[0])
+        if out is None and tree is not None and not path.endswith("posc.py"):
             defs = [st for st in tree.body if isinstance(st, (ast.Assign, ast.AnnAssign)) and any(isinstance(t, ast.Name) and t.id == name for t in (st.targets if isinstance(st, ast.Assign) else [st.target]))]
             if len(defs) == 1 and defs[0].value is not None:
                 v = defs[0].value
